@@ -18,14 +18,37 @@ pub fn dump_comp(comp: &mut CompoundFile<Cursor<Vec<u8>>>) -> String {
             Ok(_) => s.push_str(&format!(" {}", hex(&v))),
             Err(_) => s.push_str(" err"),
         }
-        // seeks and buffered reads on whatever this stream is: results are not compared, only that
-        // nothing panics or hangs (the worker has a watchdog and a panic hook)
+        // seeks and buffered reads on whatever this stream is: every seek result is judged against
+        // the rule "new position computed without wrap-around; accepted iff 0 <= new <= len"
+        // (C05/C06), and nothing may panic or hang (the worker has a watchdog and a panic hook)
         if let Ok(mut st) = comp.open_stream(e.path()) {
             use std::io::{BufRead, Seek, SeekFrom};
-            for p in [SeekFrom::End(i64::MIN), SeekFrom::Current(i64::MIN), SeekFrom::Start(u64::MAX), SeekFrom::End(0), SeekFrom::Start(e.len() / 2), SeekFrom::Current(-1), SeekFrom::Current(i64::MAX)] {
-                let _ = st.seek(p);
+            let len = st.len();
+            let mut pos: u64 = 0;
+            for p in [
+                SeekFrom::End(i64::MIN), SeekFrom::Current(i64::MIN), SeekFrom::Start(u64::MAX), SeekFrom::End(0),
+                SeekFrom::Current(i64::MAX), SeekFrom::Start(len.saturating_sub(3)), SeekFrom::Current(i64::MAX),
+                SeekFrom::Start((1u64 << 63) + 10), SeekFrom::Current(i64::MAX), SeekFrom::Current(i64::MIN),
+                SeekFrom::Start(e.len() / 2), SeekFrom::Current(-1), SeekFrom::Current(i64::MAX),
+            ] {
+                let want: i128 = match p {
+                    SeekFrom::Start(n) => n as i128,
+                    SeekFrom::End(d) => len as i128 + d as i128,
+                    SeekFrom::Current(d) => pos as i128 + d as i128,
+                };
+                let ok = want >= 0 && want <= len as i128;
+                match st.seek(p) {
+                    Ok(n) if ok && n as i128 == want => pos = n,
+                    Err(_) if !ok => {}
+                    other => s.push_str(&format!(" SEEKBAD({:?} at {} of {} -> {:?})", p, pos, len, other.map_err(|e| e.kind()))),
+                }
+                if st.stream_position().ok() != Some(pos) {
+                    s.push_str(&format!(" POSBAD({:?} want {})", p, pos));
+                }
                 let n = st.fill_buf().map(|b| b.len()).unwrap_or(0);
-                st.consume(n.min(3));
+                let n = n.min(3);
+                st.consume(n);
+                pos += n as u64;
             }
         }
     }
